@@ -113,6 +113,19 @@ class Built:
         for md in sc["models"]:
             if len(md["nodes"]) == 1 and not md["edges"]:
                 self.models.append(self.nodes[md["nodes"][0]])
+            elif md.get("build") == "iand":
+                # built in place: the sub-model over the first nodes, then  model &= <the rest>  (Model.update_graph)
+                cut = md["cut"]
+                A = [i for i in md["nodes"] if i < cut]
+                eA = [(a, b) for a, b in md["edges"] if a < cut and b < cut]
+                eB = [(a, b) for a, b in md["edges"] if not (a < cut and b < cut)]
+                nB = sorted(set([i for i in md["nodes"] if i >= cut] + [x for e in eB for x in e]))
+                m = Model([self.nodes[i] for i in A], [(self.nodes[a], self.nodes[b]) for a, b in eA],
+                          name="%s_m%d" % (self.prefix, len(self.models)))
+                other = Model([self.nodes[i] for i in nB], [(self.nodes[a], self.nodes[b]) for a, b in eB],
+                              name="%s_m%db" % (self.prefix, len(self.models)))
+                m &= other
+                self.models.append(m)
             else:
                 self.models.append(Model([self.nodes[i] for i in md["nodes"]],
                                          [(self.nodes[a], self.nodes[b]) for a, b in md["edges"]],
@@ -154,7 +167,9 @@ class Built:
         order = [self.nid(n) for n in m.nodes]
         par, _ = find_parents_and_children(m.edges)
         parents = {self.nid(c): [self.nid(p) for p in ps] for c, ps in par.items() if len(ps) > 0}
-        outs = sorted(self.nid(n) for n in m.output_nodes)
+        md = self.sc["models"][mi]
+        senders = set(a for a, b in md["edges"])
+        outs = sorted(i for i in md["nodes"] if i not in senders)     # exits by definition: nodes without successors
         return order, parents, outs
 
 
